@@ -31,6 +31,9 @@ type Entry struct {
 	// Data overrides the generated content (Chart.yaml etc).
 	Data string `json:"data,omitempty"`
 	Mode int64  `json:"mode,omitempty"`
+	// Lead makes the generated content start with one ("bom") or two ("bom2")
+	// UTF-8 byte order marks (cut to Size; Size 3 with "bom" is a BOM-only file).
+	Lead string `json:"lead,omitempty"`
 }
 
 func (e Entry) String() string {
@@ -40,6 +43,9 @@ func (e Entry) String() string {
 	}
 	if e.Data == "" && (e.Size != 0 || e.Actual >= 0) {
 		s += fmt.Sprintf("[%d/%d%s]", e.Size, e.Actual, e.SizeVia)
+	}
+	if e.Lead != "" {
+		s += "~" + e.Lead
 	}
 	return s
 }
@@ -144,10 +150,19 @@ func paxRecord(k, v string) string {
 }
 
 // content generates deterministic file content of n bytes.
-func content(n int64) []byte {
+func content(n int64) []byte { return contentLead(n, "") }
+
+// contentLead is content with a leading BOM ("bom") or two ("bom2").
+func contentLead(n int64, lead string) []byte {
 	b := make([]byte, n)
 	for i := range b {
 		b[i] = 'A' + byte(i%23)
+	}
+	switch lead {
+	case "bom":
+		copy(b, "\xef\xbb\xbf")
+	case "bom2":
+		copy(b, "\xef\xbb\xbf\xef\xbb\xbf")
 	}
 	return b
 }
@@ -232,7 +247,7 @@ func buildTar(entries []Entry, outsideAbs string, endMarker bool) ([]byte, []spa
 			actual = size
 		}
 		if actual > 0 {
-			add(pad512(content(actual)), ei, int(actual))
+			add(pad512(contentLead(actual, e.Lead)), ei, int(actual))
 		}
 		if actual < size {
 			// truncated: the stream ends inside this entry (no padding, no end marker)
